@@ -262,6 +262,7 @@ def units(tier):
     from props.common import wrap as _wrap
     _wrap(us, "C16.pitzer.ETHETAS.ethetap==d(etheta)/dI", PZ.unit_ethetas)
     _wrap(us, "C16.pitzer.ETHETA_PARAMS.JPRIME==x*dJ/dx", PZ.unit_etheta_params)
+    _wrap(us, "C16.pitzer.mixing_terms_gamma_and_phi_from_one_excess_function", PZ.unit_pitzer_mixing_terms)
     from props import c16_sit as ST
     _wrap(us, "C16.sit.sums_over_all_solutes_and_DH_term", ST.unit_sit)
     return us
